@@ -18,6 +18,7 @@ EXPLANATION = (
     "passes that re-nests a Contraction or pushes a product under a reduction is control-dependent on a DISTRIBUTIVE_OPS test of "
     "exactly the (sum, product) pair it relies on; Contraction.__init__ asserts the same. R02.4 = R01.4 (missing-operand reduction). "
     "R02.5 accumulator seeds are UNITS of the accumulating op. Truthfulness of the tables themselves is C15."
+    " Added since: R02.6 push-down of a reduction into some operands needs distributivity of the rule's own pair; R02.7 the same-op branch reduces every operand over all variables; R02.8 occurrence counts are taken over the operand sequence; R02.9 = R01.10; R02.10 variables summed out inside k operands have occurrence count exactly k; distribution over an inner contraction requires that it has no reduction."
 )
 ASSUMPTIONS = ["funsorlint/axioms.py", "op tables truthful (C15)"]
 RULE_TEXT = "one obligation per rewrite rule of the listed kinds / per (site, op) pair / per seed"
